@@ -530,7 +530,9 @@ def _print_diff_str(diff: str) -> None:
     if sys.stdout.isatty():
         click.echo(colored_diff)
     else:
-        click.echo(diff)
+        # NOTE: If stdout is not a tty, click.echo strips ansi escape sequences by
+        #   default. The diff must show the lines of the files unaltered.
+        click.echo(diff, color=True)
 
 
 def _print_diff(cfg: config.Config, new_version: str) -> None:
